@@ -286,6 +286,31 @@ def run(ctx):
             viol.append({"what": "option sink: file output differs from string output on a large result",
                          "lines_string": t_str.count("\n"), "lines_file": t_file.count("\n"),
                          "how_to_replay": "%d one-instance classes, all_classes_mode, shex_graph(string_output=True) vs shex_graph(output_file=f)" % nclasses})
+        # option decimals on a class large enough for a ratio below 1 to be WRITTEN as 100 % (250 instances under decimals=0, 2500 under
+        # decimals=1): constraints and cardinalities must be those of decimals=-1, in all-compliant mode too
+        import shex_text
+        stats["decimals_large_class_cases"] = 0
+        for N, decs in ([(250, (0,)), (2500, (0, 1))] if ctx.tier == "quick" else [(250, (0, 1, 2)), (2500, (0, 1, 2)), (21000, (2,))]):
+            big2 = []
+            for i in range(N):
+                big2 += [(I('w%d' % i), RDF_TYPE, I('Wide')), (I('w%d' % i), EX + 'always', L('v'))]
+                if i != 3:
+                    big2.append((I('w%d' % i), EX + 'code', L('c')))
+                if i != 5:
+                    big2.append((I('w%d' % i), EX + 'ref', I('w%d' % ((i + 1) % N))))
+            nt2 = to_nt(big2)
+            for compliant in (True, False):
+                def sig(dec):
+                    t_ = Shaper(raw_graph=nt2, all_classes_mode=True, all_instances_are_compliant_mode=compliant, decimals=dec).shex_graph(string_output=True)
+                    return [(sh['label'], [(st['inv'], st['prop'], tuple(st['types']), st['card']) for st in sh['stmts']]) for sh in shex_text.parse(t_)['shapes']]
+                ref_sig = sig(-1)
+                for dec in decs:
+                    stats["decimals_large_class_cases"] += 1
+                    got_sig = sig(dec)
+                    if got_sig != ref_sig:
+                        viol.append({"what": "option decimals=%d changes constraints / cardinalities on a class of %d instances (all_instances_are_compliant_mode=%s)"
+                                             % (dec, N, compliant), "decimals_minus_one": repr(ref_sig)[:500], "with_decimals": repr(got_sig)[:500],
+                                     "how_to_replay": "%d instances of ex:Wide, ex:code missing from one, ex:ref from another; decimals=-1 vs %d" % (N, dec)})
     finally:
         import shutil
         shutil.rmtree(tmpdir, ignore_errors=True)
